@@ -529,8 +529,8 @@ func runC09(res *vh.Result) {
 	if !vh.Thorough() {
 		nexh = pow * 4 * 2
 	}
-	nrand := vh.Tiered(3000, 60000)
-	nstale := vh.Tiered(96, 1600)
+	nrand := vh.Tiered(3000, 150000)
+	nstale := vh.Tiered(96, 4000)
 	res.Cases(nexh+nrand+nstale, func(i int, rng *vh.Rng) {
 		if i >= nexh+nrand {
 			c := c09StaleCase{MaxRetrans: uint8(rng.Intn(4)), RTms: rng.Range(15, 40), N: rng.Range(1, 3)}
